@@ -38,7 +38,7 @@ var zzC03 = []zzScenario{
 	},
 	{ // 5: a live route whose pattern is a proper prefix of a cleaned prefix and whose only descendants sit under it
 		setup: []zzOp{zzH("/k", "GET"), zzH("/k/v/u", "GET"), zzH("/k/v/i/{id}", "POST"), zzH("/o", "GET")},
-		alpha: []zzOp{zzPCl("/k/v"), zzPCl("/k/v/"), zzPCl("/k/"), zzRm("/k"), zzRm("/k/v/u"), zzPCl("/k/v/i"), zzRm("/k/v/i/{id}"), zzH("/k/v", "PUT")},
+		alpha: []zzOp{zzPCl("/k/v"), zzPCl("/k/v/"), zzPCl("/k/"), zzRm("/k"), zzRm("/k", "PUT", "GET"), zzRm("/k/v/u"), zzPCl("/k/v/i"), zzRm("/k/v/i/{id}"), zzH("/k/v", "PUT")},
 	},
 	{ // 6: a cleaned prefix that is itself a route ending at a node boundary (literal and parameter)
 		setup: []zzOp{zzH("/v", "GET"), zzH("/v/1", "GET"), zzH("/v/{z}", "POST"), zzH("/w/{k:\\d+}", "GET"), zzH("/w/{k:\\d+}/u", "GET")},
@@ -51,6 +51,10 @@ var zzC03 = []zzScenario{
 	{ // 8: literal siblings one of which starts with a non-ASCII byte; the index threshold is crossed upwards
 		setup: []zzOp{zzH("/t/a", "GET"), zzH("/t/b", "GET"), zzH("/t/\u4e2d", "GET"), zzH("/t/c", "GET")},
 		alpha: []zzOp{zzH("/t/d", "GET"), zzH("/t/{n}", "POST"), zzRm("/t/a"), zzH("/t/\u00e4", "GET"), zzRm("/t/\u4e2d"), zzH("/t/e", "PUT")},
+	},
+	{ // 9: a route that lost its handlers but stayed as an inner node; its last descendant goes (both are pruned), then it comes back
+		setup: []zzOp{zzH("/q", "GET"), zzH("/q/{id}", "GET"), zzH("/o", "GET"), zzRm("/q")},
+		alpha: []zzOp{zzRm("/q/{id}"), zzH("/q", "POST"), zzH("/q/{id}", "PUT"), zzRm("/q/{id}", "GET"), zzPCl("/q/"), zzH("/q/x", "GET")},
 	},
 }
 
@@ -67,8 +71,13 @@ func zzApply(r *Router[*hnd], m *zzModel, op zzOp, id int) bool {
 		r.Handle(op.p, &hnd{id: id}, nil, op.ms...)
 		m.add(op.p, id, op.ms...)
 	case 1:
+		want := append([]string{}, op.ms...)
 		r.Remove(op.p, op.ms...)
-		m.remove(op.p, op.ms...)
+		// the list belongs to the caller, who may pass it again: Remove must not have written to it
+		for i := range want {
+			zzv.Assert(op.ms[i] == want[i], "Remove-wrote-to-the-caller's-method-list")
+		}
+		m.remove(op.p, want...)
 	case 2:
 		r.Clean()
 		m.clean("")
@@ -149,6 +158,7 @@ func ZZC03(n int) {
 			continue
 		}
 		wp := zzWitness(op.p)
+		zzCheckStrictURL("removed", r, op.p, false)
 		o, _ := zzServe(r, zzReq("GET", wp))
 		zzv.Assert(!o.node || o.pattern != op.p, "removed-pattern-still-served")
 		zzExpectDispatch("removed", m, wp, "GET", o)
